@@ -13,7 +13,7 @@ import random
 # (np / pd are left out: whether `import numpy as np` works depends on the environment of the child process, not on pyrefact)
 GUESSABLE = ["json", "os", "Path", "Optional", "re", "List", "queue", "copy", "time", "string", "token", "code", "math", "sys", "random", "select",
              "ModuleType", "Any", "PurePath", "test", "types", "Iterable", "shlex", "warnings"]
-ALL_FORMS = ["none", "none", "list", "tuple", "list_aug", "list_extend", "list_append", "list_plus", "annotated"]
+ALL_FORMS = ["none", "none", "list", "tuple", "list_aug", "list_extend", "list_append", "list_plus", "annotated", "aug_in_if", "extend_in_try_else", "aug_in_with"]
 
 
 def _defs(r, mod, funcs, classes, consts, extra=()):
@@ -53,6 +53,13 @@ def _all_block(r, form, public, hidden):
         return [f"__all__ = [{q(head)}]"] + [f"__all__.append({n!r})" for n in tail]
     if form == "list_plus":
         return [f"__all__ = [{q(head)}] + [{q(tail)}]"]
+    # the list is extended inside a block that always runs
+    if form == "aug_in_if":
+        return [f"__all__ = [{q(head)}]"] + ([f"if len(__all__) >= 0:", f"    __all__ += [{q(tail)}]"] if tail else [])
+    if form == "extend_in_try_else":
+        return [f"__all__ = [{q(head)}]"] + (["try:", "    import sys as _sys", "except ImportError:", "    pass", "else:", f"    __all__.extend([{q(tail)}])"] if tail else [])
+    if form == "aug_in_with":
+        return [f"__all__ = [{q(head)}]"] + (["import contextlib as _contextlib", "with _contextlib.suppress(KeyError):", f"    __all__ += [{q(tail)}]"] if tail else [])
     return []
 
 
